@@ -25,7 +25,8 @@
 (*   InvAccess (C31)  a value read of a node whose (present, well-typed)   *)
 (*        AccessLevel or UserAccessLevel lacks CurrentRead returns no      *)
 (*        value; a value write lacking CurrentWrite is refused and leaves  *)
-(*        the value unchanged.                                             *)
+(*        the value unchanged.  ("missing" = no restriction from that      *)
+(*        attribute; a present attribute that is not a byte lacks the bit.)*)
 (*                                                                         *)
 (* Defects of the pinned tree are deviations: the set Devs names the       *)
 (* deviating disjuncts that are enabled; a step that is only possible      *)
@@ -46,8 +47,10 @@ CONSTANTS Sessions,   \* names of the sessions a history uses, e.g. {"s1", "s2"}
 
 Callers == Sessions \cup Ghosts
 NoSub == 0
-Levels == {"missing", "wrong", "0", "1", "2", "3", "7"}     \* attribute absent / wrong Go type / bit masks
-Present(l)  == l \notin {"missing", "wrong"}
+\* attribute absent / present with the wrong Go type / present with a null variant / bit masks.
+\* A present attribute that is not a byte has no CurrentRead / CurrentWrite bit: it "lacks" the bit.
+Levels == {"missing", "wrong", "null", "0", "1", "2", "3", "7"}
+Present(l)  == l # "missing"
 ReadBit(l)  == l \in {"1", "3", "7"}
 WriteBit(l) == l \in {"2", "3", "7"}
 
@@ -243,6 +246,13 @@ DelItemEffect(id) == items' = Drop(items, {id}) /\ UNCHANGED <<sess, subs, nodes
 SetMode(c, id, res)    == ItemOp("SetMode", c, id, res, SetModeEffect)
 DeleteItem(c, id, res) == ItemOp("DeleteItem", c, id, res, DelItemEffect)
 
+\* The application changes an access level attribute of a node at run time (server API, not a request)
+SetLevel(n, which, l) ==
+   /\ which \in {"al", "ual"} /\ l \in Levels
+   /\ nodes' = [nodes EXCEPT ![n] = IF which = "al" THEN [@ EXCEPT !.al = l] ELSE [@ EXCEPT !.ual = l]]
+   /\ last' = Req("SetLevel", "null", "ok", "", NoExtra)
+   /\ UNCHANGED <<sess, subs, items>>
+
 \* A request that kills the server process is never part of the contract
 Crash(svc, c) == /\ Dev("crash-" \o svc) /\ UNCHANGED core
                  /\ last' = Req(svc, c, "crash", "crash-" \o svc, NoExtra)
@@ -262,6 +272,7 @@ Next ==
    \/ \E c \in Callers, r \in Results : \E g \in SUBSET DOMAIN subs : Close(c, r, g)
    \/ \E c \in Callers, n \in NodeSet, r \in Results : \E v \in Values \cup {0} : Read(c, n, r, v)
    \/ \E c \in Callers, n \in NodeSet, v \in Values, r \in Results : Write(c, n, v, r)
+   \/ \E n \in NodeSet, w \in {"al", "ual"}, lv \in LevelSet : SetLevel(n, w, lv)
    \/ \E c \in Callers, r \in Results : Browse(c, r) \/ Unsupported(c, r)
    \/ \E c \in Callers, id \in SubIds, r \in Results : CreateSub(c, id, r) \/ DeleteSub(c, id, r)
    \/ \E c \in Callers, sub \in SubIds, id \in ItemIds, r \in Results : CreateItem(c, sub, id, r)
